@@ -175,6 +175,11 @@ func ItemsEqual(a, b ap.Item) Op {
 	return Op{"ItemsEqual", func() string { return fmt.Sprint(ap.ItemsEqual(a, b)) }}
 }
 
+// ContainsIRI asks a shared IRI list for an IRI in another spelling.
+func ContainsIRI(l ap.IRIs, i ap.IRI) Op {
+	return Op{"IRIs.Contains", func() string { return fmt.Sprint(l.Contains(i), i.Equals(l[0], false), i.Equals(l[0], true)) }}
+}
+
 func Sprintf(v ap.Item) Op {
 	return Op{"Sprintf", func() string { return fmt.Sprintf("%s|%v|%+v", v, v, v) }}
 }
@@ -218,8 +223,10 @@ type Scenario struct {
 	Threads []Op
 }
 
+var fresh int // S10: a different spelling of the identities for every instance
+
 // Count is the number of scenarios.
-const Count = 10
+const Count = 11
 
 type sizes struct {
 	note       func() *ap.Object
@@ -282,6 +289,33 @@ func get(i int, z *sizes) Scenario {
 	case 7:
 		v := Create()
 		return mk("S7 MarshalJSON(create) || UnmarshalJSON(docA) || ItemsEqual(create, create)", []ap.Item{v}, MarshalJSON(v), UnmarshalJSON(docA), ItemsEqual(v, v))
+	case 10:
+		// the same identities in another presentation (scheme, letter case, trailing slash, reordered query): the comparison
+		// cannot be decided on the strings and takes the parsing path, from two threads at once, on a shared list as well
+		// every instance spells its identities differently (a counter in the path), so that whatever the library remembers about
+		// an IRI it has seen is not yet there when the threads start - first-time paths are run by several threads at once
+		fresh++
+		v, w := Note(), Note()
+		v.ID = ap.IRI(fmt.Sprintf("https://example.com/notes/%d/1", fresh))
+		w.ID = v.ID
+		for k := range v.To {
+			v.To[k] = ap.IRI(fmt.Sprintf("%s/%d", v.To[k].GetLink(), fresh))
+			w.To[k] = v.To[k]
+		}
+		respell := func(i ap.IRI) ap.IRI {
+			s := string(i)
+			if len(s) > 8 && s[:8] == "https://" {
+				s = "HTTP://" + s[8:]
+			}
+			return ap.IRI(s + "/")
+		}
+		w.ID = respell(w.ID)
+		for k, it := range w.To {
+			w.To[k] = respell(it.GetLink())
+		}
+		ids := ap.IRIs{ap.IRI(fmt.Sprintf("https://example.com/q%d?b=2&a=1&a=0", fresh)), "https://example.com/notes/1", "https://example.com/q?x=1"}
+		return mk("S10 ItemsEqual(note, respelled note) || IRIs.Contains(respelled id) || ItemsEqual(respelled, note)", []ap.Item{v, w, ids},
+			ItemsEqual(v, w), ContainsIRI(ids, ap.IRI(fmt.Sprintf("http://EXAMPLE.com/q%d?a=0&a=1&b=2", fresh))), ItemsEqual(w, v))
 	case 9:
 		// texts long enough for any size-triggered path (pooled or chunked buffers), different in the two threads
 		v, w := LongTexts(1, z.longN), LongTexts(2, z.longN)
